@@ -1473,6 +1473,40 @@ def c09h(F, R):
             R.ok(key, detail="position taken on a character established not to be a line break", where=where)
 
 
+@rule("C18", "C18.h.excerpt-is-cut-at-the-first-visible-character", floor=1)
+def c18h(F, R):
+    """the pretty excerpt is left-aligned by dropping the leading blanks of the line: the offset used for the marker is the index of the *first* non-blank character (the search loop stops at its first hit), or the marker is shifted left by the length of the line's last word"""
+    fr = [q for q in F.fns if q.endswith("PrettyPrint::format_region")]
+    if not fr:
+        raise Anchor("PrettyPrint::format_region not found")
+    g = F.fn(fr[0])
+    body = g["hir"]["value"]
+    hits = 0
+    for fl in for_loops(body):
+        if not (mentions_call(fl["iter"], "chars") or mentions_call(fl["iter"], "char_indices")):
+            continue
+        for iff in walk(fl["body"], pats=False):
+            if iff.get("k") != "If" or not mentions_call(iff["cond"], "is_whitespace"):
+                continue
+            assigns = [a_ for a_ in walk(iff["then"], pats=False) if a_.get("k") == "Assign"]
+            if not assigns:
+                continue
+            hits += 1
+            negated = any(u.get("k") == "Unary" and u["op"] == "Not" for u in walk(iff["cond"], pats=False))
+            leaves = any(y.get("k") in ("Break", "Ret") for y in walk(iff["then"], pats=False))
+            if negated and leaves:
+                R.ok("first-non-blank", detail="the search stops at the first non-blank character", where=loc(iff))
+            else:
+                R.bad("first-non-blank", "the search for the first non-blank character of the excerpt line does not stop at its first hit (or tests for blanks instead of non-blanks): the offset is that of a later character and the marker no longer sits under the reported columns", loc(iff))
+    if hits == 0:
+        # another form: `text.chars().position(|c| !c.is_whitespace())` / `find`
+        alt = [m for m in walk(body, pats=False) if m.get("k") == "MethodCall" and m["name"] in ("position", "find") and mentions_call(m, "is_whitespace")]
+        if alt:
+            R.ok("first-non-blank", detail=f"`.{alt[0]['name']}(..is_whitespace..)` yields the first hit", where=loc(alt[0]))
+        else:
+            R.bad("first-non-blank|shape", "UNEXTRACTABLE: format_region no longer looks for the first non-blank character of the line", g["sp"])
+
+
 @rule("C18", "C18.f.excerpt-gutter-matches-printed-number", floor=2)
 def c18f(F, R):
     """in the pretty excerpt the blank gutter of the marker line is as wide as the line-number gutter above it: its width is computed from the very value that is printed as the line number (same binding) plus the literal characters printed before the number; otherwise the marker slides off the reported columns on lines 10, 100, ..."""
@@ -1717,6 +1751,21 @@ def c07m(F, R):
                         if side.get("k") == "Path" and (side.get("res") or "").startswith(DT + "::"):
                             stops.append((short(side["res"]), b))
     stop_vs = sorted({v for v, _ in stops})
+    # the comparison must actually leave the loop
+    if stops:
+        pm_ = parent_map(F.fn(pf[0])["hir"]["value"]) if pf else {}
+        for v_, b_ in stops:
+            x_ = b_
+            iff = None
+            while id(x_) in pm_:
+                x_ = pm_[id(x_)]
+                if x_.get("k") == "If" and any(y is b_ for y in walk(x_["cond"], pats=False)):
+                    iff = x_
+                    break
+            if iff is None or not any(y.get("k") == "Break" for y in walk(iff["then"], pats=False)):
+                R.bad(f"macro-skip|leaves|{v_}", f"the macro-skipping loop compares a directive with {v_} but does not `break` when they are equal: the macro never ends and the rest of the file is discarded", loc(b_))
+            else:
+                R.ok(f"macro-skip|leaves|{v_}", detail=f"`break` on {v_}", where=loc(iff))
     if not stops:
         R.bad("macro-skip|stop", "UNEXTRACTABLE: no loop that stops on a DirectiveToken variant (the macro-skipping loop) found in the node parser", None)
         return
